@@ -113,8 +113,8 @@ func (x *Exec) eval(e ast.Expr, st *State, env *Env) Value {
 			m := x.eval(e.X, st, env).(Scalar)
 			i := x.eval(e.Index, st, env).(Scalar)
 			ti := TInfo{K: TInt, Bits: 64, Signed: true}
-			if x.classify(bt).Bits == 8 {
-				ti = TInfo{K: TBV, Bits: 8}
+			if b := x.classify(bt).Bits; b == 8 || b == 64 {
+				ti = TInfo{K: TBV, Bits: b}
 			}
 			if len(x.autoTrig) > 0 && binderNameRe.MatchString(i.T) {
 				// ghost map read at a bare bound variable: candidate trigger term for that variable
